@@ -4,7 +4,7 @@ CONSTANTS
   MaxLoop = 3
   HasTry = FALSE
   Behaviours = {"5xx", "connfail", "ok"}
-  Defects = {"LoopCountsRetries"}
+  Defects = {}
 SPECIFICATION Spec
 INVARIANTS NoFallOut
 CHECK_DEADLOCK FALSE
